@@ -818,6 +818,47 @@ def r6_c_null(L):
                      "< sizeof(buf)", k, 0 <= k < ext, tu.line(n))
 
 
+def r10_list_head(L):
+    """R10 (no response datagram makes trxcon read outside its objects): `llist_entry(<head>.next, ...)` yields a
+    message only when the list is not empty - on an empty list `.next` is the head itself and the "entry" is the
+    enclosing trx_instance read at a negative offset.  Every first-entry access to a list head in trx_if.c must be
+    guarded, on every path, by `llist_empty(&<head>)` being false (if-guard with early exit, or the loop condition)."""
+    from cfront import TU, CCFG, kids, kind, strip, walk, ctext
+    tu = TU(L.repo, "trxcon", "src/trx_if.c", L=L)
+    F = tu.rel
+    n_sites = 0
+    for fname_, f in sorted(tu.functions.items()):
+        if not any(kind(c) == "CompoundStmt" for c in kids(f)):
+            continue
+        if not str(f.get("loc", {}).get("file", tu.rel)).endswith("trx_if.c") and f.get("loc", {}).get("includedFrom"):
+            continue
+        body = tu.body(f)
+        g = None
+        for n in walk(body):
+            if kind(n) != "StmtExpr":
+                continue
+            heads = []
+            for m in walk(n):
+                if kind(m) == "MemberExpr" and m.get("name") in ("next", "prev"):
+                    base = kids(m)[0] if kids(m) else None
+                    if base is not None and "llist_head" in strip(base, casts=True).get("type", {}).get("qualType", ""):
+                        heads.append(ctext(strip(base, casts=True)))
+            if not heads:
+                continue
+            if g is None:
+                g = CCFG(tu, f)
+            fname = f.get("name")
+            L.fn(F, fname)
+            for h in sorted(set(heads)):
+                n_sites += 1
+                lits = g.guard_lits(g.node_of(n))
+                want = "llist_empty(&%s)" % h
+                ok = any((not pol) and t.replace(" ", "") == want.replace(" ", "") for t, pol in lits)
+                L.ob("C14.R10", F, fname, "first entry of `%s` is taken only when the list is not empty" % h,
+                     "dominated by `!%s`" % want, sorted(("" if pl else "!") + t for t, pl in lits)[:6], ok, tu.line(n))
+    L.floor("C14.R10", "first-entry accesses to list heads in trx_if.c", n_sites, 3)
+
+
 def _none_crash_use(n):
     """n: a Load of an optional field `self.X`. Description of the use if it raises when the field is None
     (attribute access, subscript, len()/int()/abs(), arithmetic, ordering comparison, numeric format conversion),
@@ -964,4 +1005,5 @@ def run(L, tier):
     L.stage(r4_attrs, L, repo, es)
     L.stage(r5_capture, L, repo)
     L.stage(r6_c_null, L)
+    L.stage(r10_list_head, L)
     L.stage(r9_desc_total, L, repo)
